@@ -238,7 +238,7 @@ func observe(e env, fl flow, resp *opfix.Resp) obs {
 	switch {
 	case resp.Status >= 300 && resp.Status < 400:
 		p := resp.ResponseParams()
-		if p != nil && p.Get("error") != "" {
+		if p != nil && p.Has("error") { // an error redirect, whatever the code (a storage may choose the empty type)
 			o.oerr = p.Get("error")
 			loc := resp.Header.Get("Location")
 			if i := strings.IndexAny(loc, "?#"); i >= 0 {
@@ -326,6 +326,21 @@ func kinds() []kindDef {
 		{coq: "(BOidc EInvalidClient false)", tag: "oidc-invalid_client", mk: func() error { return oidc.ErrInvalidClient() }, quick: true},
 		{coq: "(BOidc EAccessDenied false)", tag: "oidc-access_denied", mk: func() error { return oidc.ErrAccessDenied() }, quick: true},
 		{coq: "(BOidc EInvalidRequest true)", tag: "oidc-invalid_request-noredirect", mk: func() error { return oidc.ErrInvalidRequestRedirectURI() }, quick: true},
+		// every other exported constructor of pkg/oidc/error.go, a type of the storage's own and the empty type
+		// (k-th-call plans of every variant on the reference storage; wrapped: thorough tier)
+		{coq: "(BOidc EInvalidScope false)", tag: "oidc-invalid_scope", mk: func() error { return oidc.ErrInvalidScope() }, quick: true},
+		{coq: "(BOidc EInvalidGrant false)", tag: "oidc-invalid_grant", mk: func() error { return oidc.ErrInvalidGrant() }, quick: true},
+		{coq: "(BOidc EUnauthorizedClient false)", tag: "oidc-unauthorized_client", mk: func() error { return oidc.ErrUnauthorizedClient() }, quick: true},
+		{coq: "(BOidc EUnsupportedGrantType false)", tag: "oidc-unsupported_grant_type", mk: func() error { return oidc.ErrUnsupportedGrantType() }, quick: true},
+		{coq: "(BOidc EInteractionRequired false)", tag: "oidc-interaction_required", mk: func() error { return oidc.ErrInteractionRequired() }, quick: true},
+		{coq: "(BOidc ELoginRequired false)", tag: "oidc-login_required", mk: func() error { return oidc.ErrLoginRequired() }, quick: true},
+		{coq: "(BOidc ERequestNotSupported false)", tag: "oidc-request_not_supported", mk: func() error { return oidc.ErrRequestNotSupported() }, quick: true},
+		{coq: "(BOidc EAuthorizationPending false)", tag: "oidc-authorization_pending", mk: func() error { return oidc.ErrAuthorizationPending() }, quick: true},
+		{coq: "(BOidc ESlowDown false)", tag: "oidc-slow_down", mk: func() error { return oidc.ErrSlowDown() }, quick: true},
+		{coq: "(BOidc EExpiredToken false)", tag: "oidc-expired_token", mk: func() error { return oidc.ErrExpiredDeviceCode() }, quick: true},
+		{coq: "(BOidc EInvalidTarget false)", tag: "oidc-invalid_target", mk: func() error { return oidc.ErrInvalidTarget() }, quick: true},
+		{coq: "(BOidc ECustom false)", tag: "oidc-custom-type", mk: func() error { return &oidc.Error{ErrorType: "temporarily_unavailable", Description: "try later"} }, quick: true},
+		{coq: "(BOidc EEmpty false)", tag: "oidc-empty-type", mk: func() error { return &oidc.Error{} }, quick: true},
 		{coq: "BDupUserCode", tag: "ErrDuplicateUserCode", mk: func() error { return op.ErrDuplicateUserCode }, quick: true, method: true},
 		{coq: "BInvalidRefresh", tag: "ErrInvalidRefreshToken", mk: func() error { return op.ErrInvalidRefreshToken }, quick: true, method: true},
 	}
@@ -606,7 +621,7 @@ func main() {
 		os.Exit(2)
 	}
 	err := w.Close(emit.Meta{Property: "C10", Tier: cfg.Tier, Seed: cfg.Seed, Exhaustive: true,
-		Rule:  "Exhaustive enumeration, not sampled: every flow variant (authorize with a registered redirect_uri in every response_type {code, id_token, id_token token} x response_mode {none, query, fragment, form_post} and with an unregistered redirect_uri; callback code / id_token / id_token token, each in every response_mode; token grants code, refresh, client_credentials, jwt-bearer, token-exchange, device; userinfo, introspect, revoke access/refresh incl. JWT access tokens, device authorization, end session, keys, discovery, ready) x both routers x {SStd: refstore as it is; SMax: every optional storage interface implemented (CanTerminateSessionFromRequest, CanGetPrivateClaimsFromRequest, TokenExchangeTokensVerifierStorage, JWTProfileTokenStorage in addition); SMin: only the grant storages, no CanSetUserinfoFromRequest; SKeep: interfaces of SStd, but the failing call has done its work - its results and side effects come back together with the error} x {cold: fresh provider instance; warm: the same instance has served the whole flow once, fault free, before} x {no fault; k-th storage call fails for k = 1..calls of the fault-free run; every call of method m fails for each m of that run} x the VALUE of the failure: plain error, context.DeadlineExceeded, context.Canceled, *oidc.Error (server_error, invalid_request, invalid_client, access_denied, redirect-disabled invalid_request), op.ErrDuplicateUserCode, op.ErrInvalidRefreshToken, each bare and wrapped with %w (20 values: 14 core values for the k-th-call plans of every flow variant, 5 of them for the method plans, 3 on warm providers; quick tier: the query / fragment response modes and the non-code authorize variants run the 3 warm values + plain method plans (form_post runs all core values), SMax / SMin / SKeep run cold with the 3 warm values + plain method plans; thorough: every variant and storage like SStd, cold and warm, plain-error method plans on warm providers, and the 6 remaining wrapped values on the first variant of each flow). Fresh store and provider per run, fault-free preparation through the fixture, then ResetJournal + fault plan + the request under test, every request under a 10 s time-out. Observed: status class, OAuth error, journal, number of WriteHeader calls / documents (JSON values, HTML pages), credential kinds anywhere in status / headers / Location / body incl. the form controls of a 200 HTML page (form_post). The seed only varies incidental request values (state, nonce, verifier, user). Non-trivial = a fault plan is set (path != 0); distinct = distinct (flow, router, storage, warm, plan).",
+		Rule:  "Exhaustive enumeration, not sampled: every flow variant (authorize with a registered redirect_uri in every response_type {code, id_token, id_token token} x response_mode {none, query, fragment, form_post} and with an unregistered redirect_uri; callback code / id_token / id_token token, each in every response_mode; token grants code, refresh, client_credentials, jwt-bearer, token-exchange, device; userinfo, introspect, revoke access/refresh incl. JWT access tokens, device authorization, end session, keys, discovery, ready) x both routers x {SStd: refstore as it is; SMax: every optional storage interface implemented (CanTerminateSessionFromRequest, CanGetPrivateClaimsFromRequest, TokenExchangeTokensVerifierStorage, JWTProfileTokenStorage in addition); SMin: only the grant storages, no CanSetUserinfoFromRequest; SKeep: interfaces of SStd, but the failing call has done its work - its results and side effects come back together with the error} x {cold: fresh provider instance; warm: the same instance has served the whole flow once, fault free, before} x {no fault; k-th storage call fails for k = 1..calls of the fault-free run; every call of method m fails for each m of that run} x the VALUE of the failure: plain error, context.DeadlineExceeded, context.Canceled, *oidc.Error of EVERY type (all exported constructors of pkg/oidc/error.go: server_error, invalid_request, invalid_client, access_denied, invalid_scope, invalid_grant, unauthorized_client, unsupported_grant_type, interaction_required, login_required, request_not_supported, authorization_pending, slow_down, expired_token, invalid_target; a type of the storage's own; the empty type; redirect-disabled invalid_request), op.ErrDuplicateUserCode, op.ErrInvalidRefreshToken, each bare and wrapped with %w; Storage.RevokeToken, whose signature returns *oidc.Error, returns the chosen *oidc.Error itself (46 values: 27 core values for the k-th-call plans of every flow variant, 5 of them for the method plans, 3 on warm providers; quick tier: the query / fragment response modes and the non-code authorize variants run the 3 warm values + plain method plans (form_post runs all core values), SMax / SMin / SKeep run cold with the 3 warm values + plain method plans; thorough: every variant and storage like SStd, cold and warm, plain-error method plans on warm providers, and the 19 remaining wrapped values on the first variant of each flow). Fresh store and provider per run, fault-free preparation through the fixture, then ResetJournal + fault plan + the request under test, every request under a 10 s time-out. Observed: status class, OAuth error, journal, number of WriteHeader calls / documents (JSON values, HTML pages), credential kinds anywhere in status / headers / Location / body incl. the form controls of a 200 HTML page (form_post). The seed only varies incidental request values (state, nonce, verifier, user). Non-trivial = a fault plan is set (path != 0); distinct = distinct (flow, router, storage, warm, plan).",
 		Extra: map[string]any{"runs": runs}})
 	if err != nil {
 		fmt.Fprintln(os.Stderr, err)
